@@ -684,6 +684,82 @@ def _src_labels(body, origs, alpha, depth=0):
     return out
 
 
+def bool_enum_map(fx, g):
+    """a crate-local synchronous function that re-encodes a bool as a two-variant enum
+    (`const fn timeout_action(&self) -> TimeoutAction { if self.fail_on_timeout { Exit } else { Ignore } }`,
+    `OnTimeout::from_fail(fail)`): {"param": index, "proj": field path of the bool inside it, "map": {variant: 0 | 1}}"""
+    cache = fx.__dict__.setdefault("_bool_enum_map", {})
+    if g["def"] in cache:
+        return cache[g["def"]]
+    cache[g["def"]] = None
+    if g.get("is_async") or g["kind"] not in ("fn", "assoc_fn") or "pre" not in g:
+        return None
+    gb = Body(g)
+    if any(True for _ in gb.normal_calls()):
+        return None
+    sw = [(bi, blk["t"]) for bi, blk in enumerate(gb.blocks) if not blk["c"] and blk["t"]["k"] == "switch"]
+    if len(sw) != 1 or sw[0][1].get("oty") != "bool" or sw[0][1]["o"].get("k") not in ("copy", "move"):
+        return None
+    src = gb.origins(sw[0][1]["o"]["p"])
+    if len(src) != 1:
+        return None
+    s0 = next(iter(src))
+    if s0.kind != "arg":
+        return None
+
+    def first_variant(bb):
+        seen = set()
+        work = [bb]
+        found = set()
+        while work:
+            b_ = work.pop()
+            if b_ in seen:
+                continue
+            seen.add(b_)
+            hit = False
+            for st in gb.blocks[b_]["s"]:
+                if st["k"] == "assign" and st["p"] == [0] and st["r"]["k"] == "agg" and st["r"].get("ak") == "adt" and st["r"].get("variant") and not st["r"].get("ops"):
+                    found.add((st["r"].get("def"), st["r"]["variant"]))
+                    hit = True
+            if not hit:
+                work.extend(x for x in gb.succs(b_, unwind=False))
+        return found
+    m = {}
+    adts = set()
+    t_ = sw[0][1]
+    branches = [(int(v) != 0, b_) for (v, b_) in t_["targets"]]
+    vals = {v for v, _ in branches}
+    if len(vals) == 1:
+        branches.append((not next(iter(vals)), t_["otherwise"]))
+    for val, b_ in branches:
+        fv = first_variant(b_)
+        if len(fv) != 1:
+            return None
+        adt, vn = next(iter(fv))
+        adts.add(adt)
+        if vn in m:
+            return None
+        m[vn] = int(val)
+    if len(m) != 2 or len(adts) != 1 or next(iter(adts)).split("::")[0] in ("core", "std", "alloc"):
+        return None
+    cache[g["def"]] = {"param": s0.site - 1, "proj": tuple(e for e in s0.proj if e != "*"), "map": m, "adt": next(iter(adts))}
+    return cache[g["def"]]
+
+
+def flag_encoding(fx, adt):
+    """{variant: 0 | 1} if the crate re-encodes a bool as this two-variant enum (every such function agrees), else None"""
+    cache = fx.__dict__.setdefault("_flag_enc", {})
+    if adt not in cache:
+        maps = []
+        for g in fx.d["fns"]:
+            if g["kind"] in ("fn", "assoc_fn") and adt.split("::")[-1] in (g.get("output") or ""):
+                bm = bool_enum_map(fx, g)
+                if bm is not None and bm["adt"] == adt:
+                    maps.append(bm["map"])
+        cache[adt] = maps[0] if maps and all(m == maps[0] for m in maps) else None
+    return cache[adt]
+
+
 def switch_labels(body, bi, t, alpha):
     """map switch value (string) / 'otherwise' -> label"""
     labels = {}
@@ -736,6 +812,45 @@ def switch_labels(body, bi, t, alpha):
                 return labels
             # a hand-written poll function matching on the Poll it got: an ordinary discriminant switch
         short_adt = alpha.adts.get(adt) or (alpha.adt_fn(adt) if (alpha.adt_fn and adt) else None)
+        fx_ = getattr(alpha, "_fx", None)
+        if not short_adt and alpha.upvar_bools and fx_ is not None and scrut_origs and all(x.kind == "call" and not x.proj for x in scrut_origs) and len(scrut_origs) == 1:
+            # a captured bool re-encoded as a two-variant enum by a crate-local pure function, then matched on: the match is
+            # the branch on that bool
+            ct = body.call_at(next(iter(scrut_origs)))
+            g = fx_.callee_fn(ct)
+            bm = bool_enum_map(fx_, g) if g is not None else None
+            if bm is not None and bm["param"] < len(ct["args"]) and ct["args"][bm["param"]].get("k") in ("copy", "move"):
+                a = ct["args"][bm["param"]]
+                srcs = body.origins(list(a["p"]) + list(bm["proj"]))
+                if srcs and all(x.kind == "upvar" for x in srcs) and len({(x.site, tuple(e for e in x.proj if e != "*")) for x in srcs}) == 1:
+                    s0 = next(iter(srcs))
+                    name = "upvar%d%s" % (s0.site, "".join("." + e for e in s0.proj if e != "*"))
+                    seen = set()
+                    for (val, _b) in t["targets"]:
+                        vn = variants.get(val)
+                        if vn in bm["map"]:
+                            labels[val] = "bool:%s=%d" % (name, bm["map"][vn])
+                            seen.add(vn)
+                    rest = [v for v in variants.values() if v not in seen]
+                    if len(rest) == 1 and rest[0] in bm["map"]:
+                        labels["otherwise"] = "bool:%s=%d" % (name, bm["map"][rest[0]])
+                    return labels
+        if not short_adt and alpha.upvar_bools and fx_ is not None and adt and scrut_origs and all(x.kind == "upvar" for x in scrut_origs) and len({(x.site, tuple(e for e in x.proj if e != "*")) for x in scrut_origs}) == 1:
+            # a captured flag stored as a two-variant enum (`config.on_timeout: OnTimeout`, set through `from_fail(bool)`)
+            enc = flag_encoding(fx_, adt)
+            if enc:
+                s0 = next(iter(scrut_origs))
+                name = "upvar%d%s" % (s0.site, "".join("." + e for e in s0.proj if e != "*"))
+                seen = set()
+                for (val, _b) in t["targets"]:
+                    vn = variants.get(val)
+                    if vn in enc:
+                        labels[val] = "bool:%s=%d" % (name, enc[vn])
+                        seen.add(vn)
+                rest = [v for v in variants.values() if v not in seen]
+                if len(rest) == 1 and rest[0] in enc:
+                    labels["otherwise"] = "bool:%s=%d" % (name, enc[rest[0]])
+                return labels
         if short_adt:
             srcs = _src_labels(body, scrut_origs, alpha)
             suffix = ("@" + "|".join(sorted(srcs))) if srcs else ""
